@@ -8,7 +8,7 @@ LEAN_MODULES = ["ViaProofs.C09"]
 LEMMA_MODULES = ['ViaProofs.ConnLemmas', 'ViaProofs.ConnWrites', 'ViaProofs.Trans.MHA', 'ViaProofs.Trans.RQP', 'ViaProofs.Trans.RQ', 'ViaProofs.Trans.RR']
 REQUIRED_THEOREMS = ['Via.C09_close_deferred', 'Via.C09_no_shutdown_while_writing', 'Via.C09_close_on_completion', 'Via.C09_keepalive_stays_open', 'Via.C09_keepalive_completion', 'Via.C09_keepalive_iff', 'Via.C09_no_truncation', 'Via.C09_disconnect_shuts_down_idle_only']
 LEVEL = "proof"
-LEVEL_TEXT = ('PROOF over EVERY history of the connection model that a connection which is not transmitting has no write in flight and at most one write is ever in flight, so disconnect() never shuts down over a response being written and the completion that performs a recorded shutdown leaves nothing in flight (C09_no_truncation), plus the decision lemmas for keep-alive vs close; the keep_alive() predicates of rx_request / rx_response and close_connection() are translated from the current source and proved equal to the model's (Trans/RQP, Trans/MHA); correspondence with the real templates; real-socket 8 MiB slow-reader runs validate the adaptor contract. Known findings C09-KF1/KF2 (late responses, chunked responses to non keep-alive requests).')
+LEVEL_TEXT = ('PROOF over EVERY history of the connection model that a connection which is not transmitting has no write in flight and at most one write is ever in flight, so disconnect() never shuts down over a response being written and the completion that performs a recorded shutdown leaves nothing in flight (C09_no_truncation), plus the decision lemmas for keep-alive vs close; the keep_alive() predicates of rx_request / rx_response and close_connection() are translated from the current source and proved equal to those of the model (Trans/RQP, Trans/MHA); correspondence with the real templates; real-socket 8 MiB slow-reader runs validate the adaptor contract. Known findings C09-KF1/KF2 (late responses, chunked responses to non keep-alive requests).')
 TRUSTED_BASE = S.SIM_TRUSTED
 ASSUMPTIONS = S.SIM_ASSUMPTIONS
 compare = S.compare
